@@ -146,8 +146,8 @@ func GenFlow(rng *rand.Rand, o GenOpts) *FlowP {
 			} else if rng.Intn(12) == 0 {
 				t.Pred = &PredP{Ctx: rng.Intn(2) == 0}
 			}
-			if t.Err && nout > 0 && rng.Intn(5) < 2 {
-				t.Fallback = true
+			if t.Err && rng.Intn(5) < 2 {
+				t.Fallback = true // for a task without outputs: the value-less cff.FallbackWith()
 			}
 			switch r := rng.Intn(10); {
 			case r < 5:
